@@ -1,5 +1,6 @@
 import GeomV.C10.MemDecode
 import GeomV.C10.Lemmas
+import GeomV.C10.LemmasM
 /-! Refinement lemmas (C10): the memory model's point-slice loop computes what the functional model
 computes (`ptsT`), on every memory in which the source window is readable. -/
 set_option linter.unusedSimpArgs false
@@ -1005,5 +1006,414 @@ theorem multiPolyM_refines (zero : Pt α) (t : TF E α) (s : Slice) (m : Mem α)
           | error e' => simp at this; simp [this]
           | ok u => simp at this
       · simp [hle] at h1
+
+end GeomV.C10.Mem
+
+namespace GeomV.C10.Mem
+open GeomV GeomV.C10
+variable {E α : Type}
+
+/-! ## collections: decoding that provably avoids some addresses of the interface-array area -/
+
+/-- blank out the arrays at the addresses `k + i` with `bad (k + i)` -/
+def pz {β : Type} (bad : Nat → Bool) : Nat → List (List β) → List (List β)
+  | _, [] => []
+  | k, x :: xs => (if bad k then [] else x) :: pz bad (k + 1) xs
+
+theorem pz_getElem? {β : Type} (bad : Nat → Bool) (k : Nat) (l : List (List β)) (i : Nat) :
+    (pz bad k l)[i]? = (l[i]?).map (fun x => if bad (k + i) then [] else x) := by
+  induction l generalizing k i with
+  | nil => simp [pz]
+  | cons x xs ih =>
+    cases i with
+    | zero => simp [pz]
+    | succ i =>
+      simp only [pz, List.getElem?_cons_succ, ih]
+      have : k + 1 + i = k + (i + 1) := by omega
+      rw [this]
+
+theorem pz_length {β : Type} (bad : Nat → Bool) (k : Nat) (l : List (List β)) : (pz bad k l).length = l.length := by
+  induction l generalizing k with
+  | nil => rfl
+  | cons x xs ih => simp [pz, ih]
+
+/-- the memory with the interface arrays at `bad` addresses blanked out -/
+def Mem.poison (bad : Nat → Bool) (m : Mem α) : Mem α := { m with geoms := pz bad 0 m.geoms }
+
+theorem readArr_pz_weaken {β : Type} (bad bad' : Nat → Bool) (hb : ∀ i, bad i = true → bad' i = true)
+    (ar : List (List β)) (s : Slice) (x : List β)
+    (h : readArr (pz bad' 0 ar) s = some x) : readArr (pz bad 0 ar) s = some x := by
+  unfold readArr at *
+  by_cases h0 : s.len = 0
+  · simpa [h0] using h
+  · simp only [h0, if_false, pz_getElem?, Nat.zero_add] at h ⊢
+    cases ha : ar[s.addr]? with
+    | none => simp [ha] at h
+    | some a =>
+      simp only [ha, Option.map_some] at h ⊢
+      by_cases hb' : bad' s.addr = true
+      · simp [hb'] at h; omega
+      · have : bad s.addr = false := by
+          cases hbb : bad s.addr with
+          | false => rfl
+          | true => exact absurd (hb _ hbb) hb'
+        simpa [hb', this] using h
+
+theorem mapM_congr_some {β γ : Type} (f g : β → Option γ) (l : List β) (ys : List γ)
+    (hfg : ∀ x ∈ l, ∀ y, f x = some y → g x = some y) (h : l.mapM f = some ys) : l.mapM g = some ys := by
+  induction l generalizing ys with
+  | nil => simpa using h
+  | cons a as ih =>
+    simp only [List.mapM_cons, bind, Option.bind] at h ⊢
+    cases ha : f a with
+    | none => simp [ha] at h
+    | some y =>
+      simp only [ha] at h
+      cases h3 : as.mapM f with
+      | none => simp [h3] at h
+      | some ys' =>
+        simp [h3] at h
+        have := ih ys' (fun x hx => hfg x (List.mem_cons_of_mem _ hx)) h3
+        simp [hfg a (List.mem_cons_self) y ha, this, h]
+
+/-- decoding a collection, one level -/
+theorem decodeGeom_collection (m : Mem α) (k : Nat) (s : Slice) :
+    decodeGeom m (k+1) (.collection s) =
+      match readArr m.geoms s with
+      | none => none
+      | some gs => (gs.mapM (decodeGeom m k)).map Geom.collection := by
+  simp only [decodeGeom]
+  cases readArr m.geoms s with
+  | none => rfl
+  | some gs => cases h : gs.mapM (decodeGeom m k) <;> simp [h, bind, Option.bind, pure]
+
+/-- for every type but a collection, decoding does not look at the interface-array area -/
+theorem decodeGeom_poison_flat (bad : Nat → Bool) (m : Mem α) (k : Nat) (g : MGeom α)
+    (hg : ∀ s, g ≠ .collection s) : decodeGeom (Mem.poison bad m) (k+1) g = decodeGeom m (k+1) g := by
+  cases g with
+  | collection s => exact absurd rfl (hg s)
+  | _ => rfl
+
+theorem decodeGeom_fuel_flat (m : Mem α) (k k' : Nat) (g : MGeom α)
+    (hg : ∀ s, g ≠ .collection s) : decodeGeom m (k+1) g = decodeGeom m (k'+1) g := by
+  cases g with
+  | collection s => exact absurd rfl (hg s)
+  | _ => rfl
+
+theorem decodeGeom_weaken (bad bad' : Nat → Bool) (hb : ∀ i, bad i = true → bad' i = true) (m : Mem α) :
+    ∀ (d : Nat) (g : MGeom α) (G : Geom α),
+      decodeGeom (Mem.poison bad' m) d g = some G → decodeGeom (Mem.poison bad m) d g = some G := by
+  intro d
+  induction d with
+  | zero => intro g G h; simp [decodeGeom] at h
+  | succ d ih =>
+    intro g G h
+    by_cases hg : ∀ s, g ≠ .collection s
+    · rw [decodeGeom_poison_flat bad' m d g hg] at h
+      rw [decodeGeom_poison_flat bad m d g hg]; exact h
+    · have : ∃ s, g = .collection s := by
+        cases g with
+        | collection s => exact ⟨s, rfl⟩
+        | _ => exact absurd (fun s hh => by cases hh) hg
+      obtain ⟨s, rfl⟩ := this
+      rw [decodeGeom_collection] at h ⊢
+      cases hr : readArr (Mem.poison bad' m).geoms s with
+      | none => simp [hr] at h
+      | some gs =>
+        simp only [hr] at h
+        have hr' : readArr (Mem.poison bad m).geoms s = some gs := readArr_pz_weaken bad bad' hb m.geoms s gs hr
+        simp only [hr']
+        cases hm : gs.mapM (decodeGeom (Mem.poison bad' m) d) with
+        | none => simp [hm] at h
+        | some Gs =>
+          simp [hm] at h
+          have := mapM_congr_some _ (decodeGeom (Mem.poison bad m) d) gs Gs (fun x _ y hy => ih x y hy) hm
+          simp [this, h]
+theorem decodeGeom_multiPolygon (m : Mem α) (k : Nat) (s : Slice) :
+    decodeGeom m (k+1) (.multiPolygon s) =
+      match readArr m.polys s with
+      | none => none
+      | some ps => (ps.mapM (decodePoly m.pts m.paths)).map Geom.multiPolygon := by
+  have hfun : (fun p => (do let hs ← readArr m.paths p; hs.mapM (readArr m.pts) : Option _)) = decodePoly m.pts m.paths := by
+    funext p; unfold decodePoly; cases readArr m.paths p <;> rfl
+  simp only [decodeGeom]
+  rw [hfun]
+  cases readArr m.polys s with
+  | none => rfl
+  | some ps =>
+    cases h : ps.mapM (decodePoly m.pts m.paths) <;> simp [h, bind, Option.bind, pure]
+
+/-- `m'` extends `m`: every area keeps its old part and may have new arrays appended -/
+structure Grow (m m' : Mem α) : Prop where
+  pts : m'.pts.take m.pts.length = m.pts
+  paths : m'.paths.take m.paths.length = m.paths
+  polys : m'.polys.take m.polys.length = m.polys
+  geoms : m'.geoms.take m.geoms.length = m.geoms
+  bnds : m'.bnds = m.bnds
+
+theorem Grow.refl (m : Mem α) : Grow m m := ⟨by simp, by simp, by simp, by simp, rfl⟩
+
+theorem Grow.trans {m1 m2 m3 : Mem α} (a : Grow m1 m2) (b : Grow m2 m3) : Grow m1 m3 :=
+  ⟨take_prefix_trans _ _ _ b.pts a.pts, take_prefix_trans _ _ _ b.paths a.paths,
+   take_prefix_trans _ _ _ b.polys a.polys, take_prefix_trans _ _ _ b.geoms a.geoms, b.bnds.trans a.bnds⟩
+
+theorem Grow.of_frozen {m m' : Mem α} (f : Frozen m.bound m m') : Grow m m' := by
+  have h1 := f.pts; have h2 := f.paths; have h3 := f.polys; have h4 := f.geoms
+  simp [Mem.bound] at h1 h2 h3 h4
+  exact ⟨h1, h2, h3, h4, f.bnds⟩
+
+theorem take_len_le {β : Type} (l l' : List β) (h : l'.take l.length = l) : l.length ≤ l'.length := by
+  have := congrArg List.length h; simp at this; omega
+
+theorem decodeGeom_grow (m m' : Mem α) (hg : Grow m m') :
+    ∀ (d : Nat) (g : MGeom α) (G : Geom α), decodeGeom m d g = some G → decodeGeom m' d g = some G := by
+  intro d
+  induction d with
+  | zero => intro g G h; simp [decodeGeom] at h
+  | succ d ih =>
+    intro g G h
+    cases g with
+    | point p => exact h
+    | nil => exact h
+    | multiPoint s =>
+      simp only [decodeGeom, Option.map_eq_some_iff] at h ⊢
+      obtain ⟨ps, hps, rfl⟩ := h
+      exact ⟨ps, readArr_prefix _ _ s ps hps hg.pts, rfl⟩
+    | lineString s =>
+      simp only [decodeGeom, Option.map_eq_some_iff] at h ⊢
+      obtain ⟨ps, hps, rfl⟩ := h
+      exact ⟨ps, readArr_prefix _ _ s ps hps hg.pts, rfl⟩
+    | bounds a =>
+      simp only [decodeGeom] at h ⊢
+      rw [hg.bnds]; exact h
+    | multiLineString s =>
+      simp only [decodeGeom, bind, Option.bind, pure] at h ⊢
+      cases h1 : readArr m.paths s with
+      | none => simp [h1] at h
+      | some hs =>
+        simp only [h1] at h
+        cases h2 : hs.mapM (readArr m.pts) with
+        | none => simp [h2] at h
+        | some rs =>
+          simp [h2] at h
+          simp [readArr_prefix _ _ s hs h1 hg.paths, mapM_readArr_prefix _ _ hs rs h2 hg.pts, h]
+    | polygon s =>
+      simp only [decodeGeom, bind, Option.bind, pure] at h ⊢
+      cases h1 : readArr m.paths s with
+      | none => simp [h1] at h
+      | some hs =>
+        simp only [h1] at h
+        cases h2 : hs.mapM (readArr m.pts) with
+        | none => simp [h2] at h
+        | some rs =>
+          simp [h2] at h
+          simp [readArr_prefix _ _ s hs h1 hg.paths, mapM_readArr_prefix _ _ hs rs h2 hg.pts, h]
+    | multiPolygon s =>
+      rw [decodeGeom_multiPolygon] at h ⊢
+      cases h1 : readArr m.polys s with
+      | none => simp [h1] at h
+      | some ps =>
+        simp only [h1] at h
+        cases h2 : ps.mapM (decodePoly m.pts m.paths) with
+        | none => simp [h2] at h
+        | some pss =>
+          simp [h2] at h
+          simp [readArr_prefix _ _ s ps h1 hg.polys,
+            mapM_decodePoly_prefix _ _ _ _ ps pss h2 hg.pts hg.paths, h]
+    | collection s =>
+      rw [decodeGeom_collection] at h ⊢
+      cases h1 : readArr m.geoms s with
+      | none => simp [h1] at h
+      | some gs =>
+        simp only [h1] at h
+        cases h2 : gs.mapM (decodeGeom m d) with
+        | none => simp [h2] at h
+        | some Gs =>
+          simp [h2] at h
+          have := mapM_congr_some _ (decodeGeom m' d) gs Gs (fun x _ y hy => ih x y hy) h2
+          simp [readArr_prefix _ _ s gs h1 hg.geoms, this, h]
+
+theorem pz_take {β : Type} (bad : Nat → Bool) (l : List (List β)) (n : Nat) :
+    (pz bad 0 l).take n = pz bad 0 (l.take n) := by
+  apply List.ext_getElem?
+  intro i
+  simp only [List.getElem?_take, pz_getElem?]
+  split <;> simp
+
+/-- blanking commutes with growth, even when the two blankings differ above the old length -/
+theorem Grow.poison {m m' : Mem α} (hg : Grow m m') (bad bad' : Nat → Bool)
+    (hb : ∀ a, a < m.geoms.length → bad a = bad' a) : Grow (Mem.poison bad m) (Mem.poison bad' m') := by
+  refine ⟨hg.pts, hg.paths, hg.polys, ?_, hg.bnds⟩
+  show (pz bad' 0 m'.geoms).take (pz bad 0 m.geoms).length = pz bad 0 m.geoms
+  rw [pz_length, pz_take, hg.geoms]
+  apply List.ext_getElem?
+  intro i
+  simp only [pz_getElem?, Nat.zero_add]
+  cases hi : m.geoms[i]? with
+  | none => rfl
+  | some x =>
+    have : i < m.geoms.length := (List.getElem?_eq_some_iff.mp hi).1
+    simp [hb i this]
+
+/-- a write to a blanked array is invisible -/
+theorem poison_set_bad (bad : Nat → Bool) (m : Mem α) (a : Nat) (v : List (MGeom α)) (ha : bad a = true) :
+    Mem.poison bad { m with geoms := m.geoms.set a v } = Mem.poison bad m := by
+  unfold Mem.poison
+  congr 1
+  apply List.ext_getElem?
+  intro i
+  simp only [pz_getElem?, Nat.zero_add, List.getElem?_set]
+  by_cases hia : a = i
+  · subst hia
+    by_cases hl : a < m.geoms.length
+    · simp [hl, ha, List.getElem?_eq_getElem hl]
+    · simp [hl]
+  · simp [hia]
+
+theorem getElem?_of_take_prefix {β : Type} (l l' : List β) (i : Nat) (x : β)
+    (hp : l'.take l.length = l) (h : l[i]? = some x) : l'[i]? = some x := by
+  have hlt : i < l.length := (List.getElem?_eq_some_iff.mp h).1
+  have h2 : (l'.take l.length)[i]? = some x := by rw [hp]; exact h
+  rw [List.getElem?_take] at h2
+  simpa [hlt] using h2
+
+theorem pz_false {β : Type} (k : Nat) (l : List (List β)) : pz (fun _ => false) k l = l := by
+  induction l generalizing k with
+  | nil => rfl
+  | cons x xs ih => simp [pz, ih]
+
+theorem collLoop_cons (t : TF E α) (G : Geom α) (Gs : List (Geom α)) :
+    collLoop t (G :: Gs) =
+      match transformS t G with
+      | .error e => .error e
+      | .ok h =>
+        match collLoop t Gs with
+        | .error e => .error e
+        | .ok r => .ok (h :: r) := by
+  simp only [collLoop]
+  cases transformS t G with
+  | error e => rfl
+  | ok h => cases collLoop t Gs <;> rfl
+
+/-- what the induction on the nesting depth provides for the members of a collection -/
+def MemberOK (zero : Pt α) (t : TF E α) (d : Nat) : Prop :=
+  ∀ (g : MGeom α) (m : Mem α) (G : Geom α) (bad : Nat → Bool),
+    (∀ a, bad a = true → a < m.geoms.length) → decodeGeom (Mem.poison bad m) d g = some G →
+    (∀ G', transformS t G = .ok G' →
+      ∃ m' g', transformM zero t d g m = (m', .ok g') ∧ decodeGeom (Mem.poison bad m') d g' = some G') ∧
+    (∀ e, transformS t G = .error e → (transformM zero t d g m).2 = .error e)
+
+theorem loopN_coll (zero : Pt α) (t : TF E α) (d : Nat) (ihd : MemberOK zero t d) (s : Slice) (dst : Nat)
+    (bad : Nat → Bool) (hbd : bad dst = true) :
+    ∀ (n i : Nat) (m : Mem α) (srcG dstArr : List (MGeom α)) (Gs : List (Geom α)),
+      (∀ a, bad a = true → a < m.geoms.length) →
+      m.geoms[s.addr]? = some srcG → m.geoms[dst]? = some dstArr → s.addr ≠ dst →
+      i + n ≤ dstArr.length → s.off + i + n ≤ srcG.length →
+      ((srcG.drop (s.off + i)).take n).mapM (decodeGeom (Mem.poison bad m) d) = some Gs →
+      (∀ Gs', collLoop t Gs = .ok Gs' →
+        ∃ (m' : Mem α) (newG : List (MGeom α)),
+          loopN (collBody (transformM zero t d) s dst) i n m = (m', .ok ()) ∧
+          m'.geoms[dst]? = some (dstArr.take i ++ newG ++ dstArr.drop (i + n)) ∧
+          newG.length = n ∧
+          newG.mapM (decodeGeom (Mem.poison bad m') d) = some Gs' ∧
+          Grow (Mem.poison bad m) (Mem.poison bad m')) ∧
+      (∀ e, collLoop t Gs = .error e →
+        (loopN (collBody (transformM zero t d) s dst) i n m).2 = .error e) := by
+  intro n
+  induction n with
+  | zero =>
+    intro i m srcG dstArr Gs hbl hs hd hne hi hsrc hGs
+    simp at hGs; subst hGs
+    refine ⟨?_, ?_⟩
+    · intro Gs' hq
+      simp [collLoop] at hq; subst hq
+      exact ⟨m, [], by simp [loopN], by simpa using hd, rfl, by simp, Grow.refl _⟩
+    · intro e he; simp [collLoop] at he
+  | succ n ih =>
+    intro i m srcG dstArr Gs hbl hs hd hne hi hsrc hGs
+    have hk : s.off + i < srcG.length := by omega
+    have hp : srcG[s.off + i]? = some (srcG[s.off + i]'hk) := List.getElem?_eq_getElem hk
+    rw [drop_take_succ srcG (s.off + i) n _ hp] at hGs
+    generalize hgdef : srcG[s.off + i]'hk = g at hp hGs
+    simp only [List.mapM_cons, bind, Option.bind] at hGs
+    cases hdg : decodeGeom (Mem.poison bad m) d g with
+    | none => simp [hdg] at hGs
+    | some G =>
+      simp only [hdg] at hGs
+      cases hrest : ((srcG.drop (s.off + i + 1)).take n).mapM (decodeGeom (Mem.poison bad m) d) with
+      | none => simp [hrest] at hGs
+      | some Gs1 =>
+        simp [hrest] at hGs; subst hGs
+        have hil : i < dstArr.length := by omega
+        have hget : aGet (E := E) m.geoms s.addr (s.off + i) = .ok g := by simp [aGet, hs, hp]
+        obtain ⟨ok1, er1⟩ := ihd g m G bad hbl hdg
+        rw [collLoop_cons]
+        cases hq : transformS t G with
+        | error e0 =>
+          refine ⟨fun Gs' h => by simp at h, ?_⟩
+          intro e he
+          simp at he; subst he
+          have hb := er1 e0 hq
+          unfold loopN
+          simp only [collBody, hget]
+          generalize transformM zero t d g m = res at hb ⊢
+          obtain ⟨m1, rr⟩ := res
+          cases rr with
+          | error e' => simp at hb; simp [hb]
+          | ok u => simp at hb
+        | ok G1 =>
+          obtain ⟨m1, g1, htm, hdec1⟩ := ok1 G1 hq
+          have hkle : m.bound.le m := ⟨Nat.le_refl _, Nat.le_refl _, Nat.le_refl _, Nat.le_refl _⟩
+          have hfro := (transformM_ok m.bound zero t d g m hkle).1.frozen
+          rw [htm] at hfro
+          have hgrow1 : Grow m m1 := Grow.of_frozen hfro
+          have hd1 : m1.geoms[dst]? = some dstArr := getElem?_of_take_prefix _ _ dst dstArr hgrow1.geoms hd
+          have hs1 : m1.geoms[s.addr]? = some srcG := getElem?_of_take_prefix _ _ s.addr srcG hgrow1.geoms hs
+          have hset : aSet (E := E) m1.geoms dst i g1 = .ok (m1.geoms.set dst (dstArr.set i g1)) := by
+            simp [aSet, hd1, hil]
+          have hbody : collBody (transformM zero t d) s dst i m =
+              ({ m1 with geoms := m1.geoms.set dst (dstArr.set i g1) }, .ok ()) := by
+            simp [collBody, hget, htm, hset]
+          have hpz : Mem.poison bad { m1 with geoms := m1.geoms.set dst (dstArr.set i g1) } = Mem.poison bad m1 :=
+            poison_set_bad bad m1 dst _ hbd
+          have hgp1 : Grow (Mem.poison bad m) (Mem.poison bad m1) := hgrow1.poison bad bad (fun _ _ => rfl)
+          have hlen1 : m.geoms.length ≤ m1.geoms.length := take_len_le _ _ hgrow1.geoms
+          have hdlt : dst < m1.geoms.length := (List.getElem?_eq_some_iff.mp hd1).1
+          have hs2 : (m1.geoms.set dst (dstArr.set i g1))[s.addr]? = some srcG := by
+            rw [List.getElem?_set_ne (Ne.symm hne)]; exact hs1
+          have hd2 : (m1.geoms.set dst (dstArr.set i g1))[dst]? = some (dstArr.set i g1) := by
+            simp [List.getElem?_set, hdlt]
+          have hrest2 : ((srcG.drop (s.off + (i + 1))).take n).mapM
+              (decodeGeom (Mem.poison bad { m1 with geoms := m1.geoms.set dst (dstArr.set i g1) }) d) = some Gs1 := by
+            have e : s.off + (i + 1) = s.off + i + 1 := by omega
+            rw [e, hpz]
+            exact mapM_congr_some _ _ _ Gs1 (fun x _ y hy => decodeGeom_grow _ _ hgp1 d x y hy) hrest
+          have ih' := ih (i + 1) { m1 with geoms := m1.geoms.set dst (dstArr.set i g1) } srcG (dstArr.set i g1) Gs1
+            (by intro a ha; have := hbl a ha; simp; omega) hs2 hd2 hne (by simp; omega) (by omega) hrest2
+          refine ⟨?_, ?_⟩
+          · intro Gs' hqq
+            cases hr2 : collLoop t Gs1 with
+            | error e => simp [hr2] at hqq
+            | ok Gs2 =>
+              simp [hr2] at hqq; subst hqq
+              obtain ⟨m', newG, hl, hgd, hlen, hdec, hgrow⟩ := ih'.1 Gs2 hr2
+              rw [hpz] at hgrow
+              refine ⟨m', g1 :: newG, ?_, ?_, by simp [hlen], ?_, hgp1.trans hgrow⟩
+              · simp only [loopN, hbody]; exact hl
+              · rw [hgd]
+                simp only [take_set_succ dstArr i _ hil, drop_set_gt dstArr i (i + 1 + n) _ (by omega)]
+                have e1 : i + 1 + n = i + (n + 1) := by omega
+                simp [e1, List.append_assoc]
+              · have h1' := decodeGeom_grow _ _ hgrow d g1 G1 hdec1
+                simp only [List.mapM_cons, bind, Option.bind, h1', hdec]
+                rfl
+          · intro e he
+            cases hr2 : collLoop t Gs1 with
+            | error e' =>
+              simp [hr2] at he; subst he
+              have := ih'.2 e' hr2
+              simp only [loopN, hbody]
+              exact this
+            | ok r2 => simp [hr2] at he
 
 end GeomV.C10.Mem
